@@ -66,6 +66,11 @@ def handle (op : String) (args : List String) (impl : String) : Option (String Ã
         some ("skip", h)
       | _, _ => some ("skip", "FAILS malformed result")
     | _ => some ("skip", "FAILS malformed result")
+  | "truncated", [_] =>
+    -- a file longer than the read cap whose first bytes alone look like one UUID / DER element / base64 / JWT: the
+    -- whole-content formats must not be claimed for it (the part beyond the cap was never looked at)
+    some ("skip", if impl == "ok " ++ Info.empty.show then "holds"
+      else "FAILS read_cap: a whole-content format is claimed for a file that was only read up to the cap")
   | "clioutput", [_, _] =>
     -- the printed report must stay within the same budget as memory: a fixed multiple of the input plus a constant
     match words impl with
